@@ -291,6 +291,8 @@ pub fn reset_globals() {
     cb::clear_state_change_listeners();
     stat::reset_resource_map();
     sentinel_core::system_metric::verif_set_readings(0.0, 0.0, 0);
+    // the configuration is (meant to be) process-wide: every run starts from the default one
+    sentinel_core::config::reset_global_config(sentinel_core::config::ConfigEntity::new());
 }
 
 /// Number of entries still open on the global inbound node (must be 0 between runs).
